@@ -55,6 +55,31 @@ func runC10(c *Ctx, r *Report) {
 				nTerm = &t
 			}
 		})
+		if nTerm == nil {
+			// the pointer is handed to a first-party helper that reads it (`fetchLength(options.Length, k)`): the
+			// value behind it is the same canonical load the helper's summary is expressed in
+			allInstrs(sf, false, func(ins ssa.Instruction) {
+				ld, ok := ins.(*ssa.UnOp)
+				if !ok || ld.Op != token.MUL || nTerm != nil {
+					return
+				}
+				if f, _ := fieldOf(ld.X); f == nil || f.Name() != "Length" {
+					return
+				}
+				path := lp.canonAddr(ld)
+				if path == "" || ld.Referrers() == nil {
+					return
+				}
+				for _, ref := range *ld.Referrers() {
+					if call, ok := ref.(*ssa.Call); ok {
+						if cal := call.Call.StaticCallee(); cal != nil && p.firstParty(calleePkg(cal)) {
+							t := linAtom(fmt.Sprintf("*%s@%s", path, shortSSAFn(sf)))
+							nTerm = &t
+						}
+					}
+				}
+			})
+		}
 		key := r.Key("R-C10.1", fn, "limit", "Length")
 		if nTerm == nil {
 			r.Violate("R-C10.1", key, fn.Body.Pos(), "the loader never reads the value of the caller's Length: nothing bounds the list it hands on although the fetcher may over-deliver")
@@ -91,7 +116,7 @@ func runC10(c *Ctx, r *Report) {
 			k2 := r.Key("R-C10.1", fn, "result", "")
 			lt := lp.lenTerm(sk.v)
 			goals := []lin{lt.add(*nTerm, -1), lt.add(linConst(ld.k), -1)} // len <= n  or  len <= k
-			paths := lp.pathFacts(sk.ins.Block())
+			paths := splitByLimitSummaries(lp, lp.pathFacts(sk.ins.Block()), *nTerm)
 			nBound, okAll := 0, true
 			var failed string
 			for i, d0 := range paths {
@@ -154,7 +179,7 @@ func runC10(c *Ctx, r *Report) {
 					geLimit := nTerm.add(lt, -1)      // n - len <= 0
 					geK := linConst(ld.k).add(lt, -1) // k - len <= 0
 					okAll, failed := true, ""
-					paths := lp.pathFacts(sk.ins.Block())
+					paths := splitByLimitSummaries(lp, lp.pathFacts(sk.ins.Block()), *nTerm)
 					np := 0
 					for i, d0 := range paths {
 						if infeasibleFacts(append(append([]lfact{}, d0...), lp.defs...)) {
@@ -919,6 +944,38 @@ func mentionsTerm(d []lfact, t lin) bool {
 		}
 	}
 	return false
+}
+
+// splitByLimitSummaries: a path that tests the result of a helper whose summary is expressed in the limit n
+// (`length := fetchLength(options.Length, k)`) is split into one path per alternative of that summary, each
+// carrying the alternative's facts: the alternative in which the helper looked at the limit mentions it, the
+// one in which the pointer was nil does not — exactly as if the helper's tests were written in place.
+func splitByLimitSummaries(lp *LenProver, paths [][]lfact, n lin) [][]lfact {
+	var out [][]lfact
+	for _, d := range paths {
+		var atom string
+		for _, f := range d {
+			for a := range f.l.c {
+				for _, alt := range lp.alts[a] {
+					if mentionsTerm(alt, n) && (atom == "" || a < atom) {
+						atom = a
+					}
+				}
+			}
+		}
+		if atom == "" || mentionsTerm(d, n) {
+			out = append(out, d)
+			continue
+		}
+		for _, alt := range lp.alts[atom] {
+			nd := append(append([]lfact{}, d...), alt...)
+			if infeasibleFacts(append(append([]lfact{}, nd...), lp.defs...)) {
+				continue
+			}
+			out = append(out, nd)
+		}
+	}
+	return out
 }
 
 // limitedVariant: the path restricted to the values n >= 0 of the limit, when the path has looked at the limit
